@@ -195,6 +195,14 @@ func (hc *httpCache) initFromStore() (err error) {
 	return hc.FromBytes(data)
 }
 
+// detachStore detach the store from http cache,
+// the cache will not be saved to store any more (it is removed from dispatcher)
+func (hc *httpCache) detachStore() {
+	hc.mu.Lock()
+	defer hc.mu.Unlock()
+	hc.store = nil
+}
+
 // saveToStore save cache to store
 func (hc *httpCache) saveToStore() (err error) {
 	if hc.store == nil || len(hc.key) == 0 {
